@@ -581,7 +581,7 @@ pub fn script_regressions() -> Vec<Script> {
 }
 
 pub fn run(ctx: &Ctx) {
-    ctx.rule("generated straight-line programs of up to 14 statements over 11 names (one-, two- and three-word, word-prefixes of each other: total / total cost / total cost net; two with non-ASCII letters whose case mapping is one-to-one: ürün, цена нетто; two that are also a month and a zone word: may, west; one containing an operator character: tax-rate), names written in random letter case at every occurrence: assignments of literals of seven kinds (number, percent, money, duration, date, time, unit quantity), copies, arithmetic incl. self-reference, uses (name alone, name op operand, -name, n * -name, conversion / percentage / date / zone / unit / duration / unix / base sentences), broken assignments to existing names (= 1 +, = (, =, type error) and garbage lines; oracle: environment model holding the value OBSERVED at the binding, and substitution: each line must evaluate exactly like the same line with every name replaced by a literal spelling of the model's value on a variable-free session; the whole program is also run line by line through one re-used Session and must give the same slots; second sub-check (free-form scripts over names that contain each other as words, with assignments failing in the parser or in the interpreter - also first-time assignments): with any ONE failing line removed, every other line - evaluating or failing - gives exactly what it gave before; non-trivial = a name bound twice and used afterwards, a failing line between a binding and a use, a copy whose source is re-bound, two prefix-related names live");
+    ctx.rule("generated straight-line programs of up to 14 statements over 11 names (one-, two- and three-word, word-prefixes of each other: total / total cost / total cost net; two with non-ASCII letters whose case mapping is one-to-one: ürün, цена нетто; two that are also a month and a zone word: may, west; one containing an operator character: tax-rate), names written in random letter case at every occurrence: assignments of literals of seven kinds (number, percent, money, duration, date, time, unit quantity), copies, arithmetic incl. self-reference, uses (name alone, name op operand, -name, n * -name, conversion / percentage / date / zone / unit / duration / unix / base sentences), broken assignments to existing names (= 1 +, = (, =, type error) and garbage lines; names re-bound to a value that differs from the current one by less than the printer shows (x = x + 0,004); oracle: environment model holding the value OBSERVED at the binding, and substitution: each line must evaluate exactly like the same line with every name replaced by a literal spelling of the model's value on a variable-free session; the whole program is also run line by line through one re-used Session and must give the same slots; second sub-check (free-form scripts over names that contain each other as words, with assignments failing in the parser or in the interpreter - also first-time assignments): with any ONE failing line removed, every other line - evaluating or failing - gives exactly what it gave before; non-trivial = a name bound twice and used afterwards, a failing line between a binding and a use, a copy whose source is re-bound, two prefix-related names live");
     ctx.assume("a name is used only after the model has a spellable binding for it (statements that would mention an unbound or unspellable name are skipped and counted)");
     ctx.run_table(&Programs, "regressions", regressions(), false);
     let max = match ctx.tier {
